@@ -389,13 +389,21 @@ func verifyContract(prog *Program, prop string, fn *ssa.Function, c *FuncContrac
 	if len(c.LoopAnchors) > 0 {
 		all := findLoops(fn)
 		for neg, anchor := range c.LoopAnchors {
-			found := 0
+			occ := 1
+			if i := strings.IndexByte(anchor, 0); i >= 0 {
+				occ, _ = strconv.Atoi(anchor[i+1:])
+				anchor = anchor[:i]
+			}
+			var matches []int
 			for _, l := range all {
 				if strings.HasPrefix(normWS(loopSrc(prog, l)), normWS(anchor)) {
-					if found == 0 || l.ord < found {
-						found = l.ord
-					}
+					matches = append(matches, l.ord)
 				}
+			}
+			sort.Ints(matches)
+			found := 0
+			if occ >= 1 && occ <= len(matches) {
+				found = matches[occ-1]
 			}
 			if found == 0 {
 				errs = append(errs, "unsupported: no loop of "+fn.Name()+" starts with \""+anchor+"\"")
